@@ -298,6 +298,8 @@ fn case(prop: u32, sub: &str, id: u64, ctx: &Ctx, r: &mut Report) {
                     (_, 3) => 300_000,
                     (_, _) => 1 << 22,
                 };
+                // (interpreter / sanitizer runs: no long runs)
+                let n = if crate::util::REDUCED.load(std::sync::atomic::Ordering::Relaxed) { n.min(2_500) } else { n };
                 let every = if sub == "deeprun" { 1 << 16 } else if n > 64 { 61 } else { 7 };
                 if lockstep::<S>(&seed, n, every, true, sub, id, r) {
                     r.distinct(hkey(&[&S::NAME, &seed]));
